@@ -20,7 +20,7 @@ func init() {
 			"The memo turns a logical join type into a physical one through the constant tables JoinType.AsHash/AsLookup/AsMerge/AsRangeHeap/AsLateral. " +
 			"Decided: every entry L->P of those tables preserves every semantic class predicate the executor consults (J1), the produced constants are " +
 			"classified consistently by IsPhysical and by exactly one algorithm predicate (J2), and the executor's dispatch ladder sends L and P to the " +
-			"same iterator class or to an algorithm iterator that implements L's class (J3). A violated entry means the physical alternative is executed " +
+			"same iterator class or to an algorithm iterator that implements L's class (J3); (K) the lookup-join key builder uses a converted probe value as an index key only when the conversion is in range (a clamped key makes only the lookup plan match). A violated entry means the physical alternative is executed " +
 			"with different join semantics than the logical operator, i.e. results depend on the plan.",
 		NotCovered: "join reordering validity, cost model, index access paths, the iterators' implementations, merge-join comparators",
 		Run:        func(c *Ctx) { runC01(c, "sql/plan", "JoinType", "sql/rowexec", "sql/analyzer") },
@@ -59,6 +59,10 @@ func runC01(c *Ctx, planRel, typeName, execRel, analyzerRel string) {
 	c.Rule("C01-J1", "for every entry L->P of JoinType.As{Hash,Lookup,Merge,RangeHeap} and every class predicate X that package rowexec calls on a JoinType to decide row semantics: X(L) == X(P)", 60)
 	c.Rule("C01-J2", "every IsPhysical constant is claimed by at most one of the algorithm predicates IsHash/IsLookup/IsMerge/IsRange (the memo builds one algorithm's child structure, the executor ladder must pick the same one)", 18)
 	c.Rule("C01-J3", "folding rowexec.buildJoinNode's predicate ladder over the enum: L and P=AsY(L) reach the same iterator constructor, or P reaches an algorithm iterator (merge/range/lateral) and L reaches the generic nested-loop iterator", 15)
+	if !c.fixtureMode {
+		c.Rule("C01-K", "lookup-join keys: a probe value converted to the indexed column's type becomes an index key (Below/Above.Key, keyed range) only on paths where the conversion reported InRange; otherwise the lookup plan alone matches rows holding the type's bound", 2)
+		ruleClampedKey(c, "C01-K", []string{"sql/plan", "sql/rowexec"})
+	}
 	if c.fixtureMode {
 		c.Rule("C01-J1", "", 0)
 		c.Rule("C01-J2", "", 0)
